@@ -97,6 +97,7 @@ func (p *proxy) call(ctx erpc.UnknownCallCtx) (interface{}, *erpc.Status) {
 		settings = make([]erpc.MessageSetting, 0, 16)
 	)
 	label.SessionID = ctx.Session().ID()
+	settings = append(settings, erpc.WithBodyCodec(ctx.GetBodyCodec()))
 	ctx.VisitMeta(func(key, value []byte) {
 		settings = append(settings, erpc.WithAddMeta(string(key), string(value)))
 	})
@@ -118,6 +119,7 @@ func (p *proxy) call(ctx erpc.UnknownCallCtx) (interface{}, *erpc.Status) {
 			ctx.SetMeta(goutil.BytesToString(key), goutil.BytesToString(value))
 		})
 	}
+	ctx.SetBodyCodec(callcmd.InputBodyCodec())
 	stat := callcmd.Status()
 	if !stat.OK() && stat.Code() < 200 && stat.Code() > 99 {
 		stat = badGateway(stat)
@@ -131,6 +133,7 @@ func (p *proxy) push(ctx erpc.UnknownPushCtx) *erpc.Status {
 		settings = make([]erpc.MessageSetting, 0, 16)
 	)
 	label.SessionID = ctx.Session().ID()
+	settings = append(settings, erpc.WithBodyCodec(ctx.GetBodyCodec()))
 	ctx.VisitMeta(func(key, value []byte) {
 		settings = append(settings, erpc.WithAddMeta(string(key), string(value)))
 	})
